@@ -33,7 +33,7 @@ CHECKS = {
    technique="TLA+ session spec + TLC exhaustive state graph with printed transitions; covering tours replayed over the wire on a two-user server with full projection of both users after every step", design="DESIGN.md section 5b C18"),
 
  "C07": dict(level="fault_enumeration",
-   text="GluonCrash.tla models 18 operations (FETCH with a failing cache read and the write-back of the re-downloaded literal, a MessagesCreated batch of 1001 messages faulted at the chunk edges, APPEND, COPY, MOVE, EXPUNGE, STORE, CREATE, DELETE, RENAME, SUBSCRIBE, UNSUBSCRIBE, MOVE/COPY out of the recovery mailbox, connector MessagesCreated / MessageUpdated / MessageDeleted, session release) as their real step lists (every store call, BEGIN, every transaction method, COMMIT) with Crash, FailStep, Recover; invariants AckedSurvives, BeforeOrAfter, AppendNeverLost, EveryListedFetchable, NoOrphans; TLC enumerates every (operation, step, kill|error) triple - the fault plan - with the allowed post-recovery states; each triple is executed in a child process with the store and the database wrapped (generated delegating wrapper for all 74 transaction methods) that kills itself or fails the call at step k; a fresh server on the same directories is compared (LIST, LSUB, UIDVALIDITY, UIDNEXT, FETCH with exact bytes, rows marked deleted, orphan files; a message and its cache file must carry exactly one id header line, that of their own row) with the allowed states; a step list that differs from the spec's is reported as spec out of date (exit 2)",
+   text="GluonCrash.tla models 19 operations (the start-up itself - RECOVER: recovery-mailbox load, purge of messages marked for deletion, deletion of their files, listing for files without a row, on a directory a killed process left behind - FETCH with a failing cache read and the write-back of the re-downloaded literal, a MessagesCreated batch of 1001 messages faulted at the chunk edges, APPEND, COPY, MOVE, EXPUNGE, STORE, CREATE, DELETE, RENAME, SUBSCRIBE, UNSUBSCRIBE, MOVE/COPY out of the recovery mailbox, connector MessagesCreated / MessageUpdated / MessageDeleted, session release) as their real step lists (every store call, BEGIN, every transaction method, COMMIT) with Crash, FailStep, Recover; invariants AckedSurvives, BeforeOrAfter, AppendNeverLost, EveryListedFetchable, NoOrphans; TLC enumerates every (operation, step, kill|error) triple - the fault plan - with the allowed post-recovery states; each triple is executed in a child process with the store and the database wrapped (generated delegating wrapper for all 74 transaction methods) that kills itself or fails the call at step k; a fresh server on the same directories is compared (LIST, LSUB, UIDVALIDITY, UIDNEXT, FETCH with exact bytes, rows marked deleted, orphan files; a message and its cache file must carry exactly one id header line, that of their own row) with the allowed states; a step list that differs from the spec's is reported as spec out of date (exit 2)",
    note="kill = SIGKILL at a step boundary (not power loss; SQLite WAL); plain read transactions are not step boundaries; connector operations run while the only session watches an untouched mailbox; \\Recent not compared",
    technique="TLA+ step-list model + TLC enumeration of the fault plan; fault/kill injection in child processes through public store/db options", design="DESIGN.md section 5 C07"),
 
@@ -58,7 +58,7 @@ CHECKS = {
    technique="TLA+ spec with limit constants + TLC; gated replay on a server configured with the same limits; per-step database comparison", design="DESIGN.md section 5 C17"),
 
  "C19": dict(level="model_checking",
-   text="GluonLocks.tla: program-counter machines of gluon's goroutines (accept loop, serve, per-session loop / reader / handler / queue pump, per-user update loop and forwarder, Close and RemoveUser) over every lock, wait group and channel they share; TLC checks deadlock freedom, LockOrderCode, OnlyOwner, StatesCounted, NoUseAfterDbClose, DbClosedMeansNoStates and, under weak fairness, CloseReturns / RemoveUserReturns / EveryCommandCompletes / NothingLeftEventually exhaustively on bounded configurations; as-code and seeded configurations must end with their named violation (non-vacuity). Binding: a stress driver runs concurrent sessions, connector updates, disconnects, RemoveUser and Close against a real server built with the verif hooks; every round's recording (lock acquire/release, wait-group, channel, goroutine lifecycle, snapshot touches) is validated by TLC as a behaviour of GluonLocks (GluonLocksTrace.tla) with the invariants evaluated on it; watchdogs on every client call and on Close/RemoveUser and a goroutine dump after Close judge hangs and leaks; directed rounds (Serve context cancelled before Close; a blocked session with more than 32 queued updates dropped before RemoveUser / Close; RemoveUser / Close under a stream of connector updates) are the real-code counterparts of the as-code / seeded witnesses of the specification",
+   text="GluonLocks.tla: program-counter machines of gluon's goroutines (accept loop, serve, per-session loop / reader / handler / queue pump, per-user update loop and forwarder, Close and RemoveUser) over every lock, wait group and channel they share; TLC checks deadlock freedom, LockOrderCode, OnlyOwner, StatesCounted, NoUseAfterDbClose, DbClosedMeansNoStates and, under weak fairness, CloseReturns / RemoveUserReturns / EveryCommandCompletes / NothingLeftEventually exhaustively on bounded configurations; as-code and seeded configurations must end with their named violation (non-vacuity). Binding: a stress driver runs concurrent sessions, connector updates, disconnects, RemoveUser and Close against a real server built with the verif hooks; every round's recording (lock acquire/release, wait-group, channel, goroutine lifecycle, snapshot touches) is validated by TLC as a behaviour of GluonLocks (GluonLocksTrace.tla) with the invariants evaluated on it; watchdogs on every client call and on Close/RemoveUser and a goroutine dump after Close judge hangs and leaks; directed rounds (Serve context cancelled before Close; a blocked session with more than 32 queued updates dropped before RemoveUser / Close; RemoveUser / Close under a stream of connector updates; sessions leaving after a remote deletion while another one publishes) are the real-code counterparts of the as-code / seeded witnesses of the specification; a recording GluonLocksTrace cannot follow is judged by GluonLocksFree.tla (every goroutine's held locks ascend in the one hierarchy)",
    note="schedules of the real server are sampled (seeded stress rounds), the model is exhaustive only within its bounds (one session at full step granularity, two/three sessions with coarse critical sections); data races proper are reported by an optional go test -race run of the same stress scenario (thorough) and are outside what the specification decides; FETCH worker goroutines and the event publisher are projected away; one known finding (removeState peeks into other sessions' snapshots)",
    technique="TLA+ spec of goroutines/locks/wait groups/channels + TLC (safety, deadlock, liveness) + TLC trace validation of recordings from the hooked real server + watchdogs", design="DESIGN.md section 5 C19"),
 
@@ -83,11 +83,11 @@ CHECKS = {
    text="GluonCore.tla action properties NoExpungeDuringFetchStore / RemovalsAnnouncedWhenPermitted / RemovalBeforeReAdd and the modelled popResponders rule; on replay an EXPUNGE line received while FETCH/STORE is in progress is a violation and [EXPUNGEISSUED] must be present exactly when the model holds back a removal",
    note=CORE_NOTE, technique="TLA+ action properties + gated replay observing the command in progress", design="DESIGN.md section 5 C05"),
  "C10": dict(level="model_checking",
-   text="GluonGrammar.tla generates every abstract command of the bounded IMAP grammar with every encoding choice; TLC checks well-formedness laws and coverage ASSUMEs and prints each case; the rendered bytes are parsed by the real parser 7 ways (whole, with/without continuation callback, byte by byte, split at every interesting position, seeded cuts, seeded keyword case) and the public AST is compared with the abstract command",
+   text="GluonGrammar.tla generates every abstract command of the bounded IMAP grammar with every encoding choice; TLC checks well-formedness laws and coverage ASSUMEs and prints each case; the rendered bytes are parsed by the real parser 8 ways (as the next command of a long-lived connection - one parser instance for thousands of consecutive cases -, whole, with/without continuation callback, byte by byte, split at every interesting position, seeded cuts, seeded keyword case) and the public AST is compared with the abstract command",
    note="exhaustive over the bounded grammar (search depth 2/3, <=2/3 seq ranges); random cuts and random keyword case are seeded samples on top", technique="TLA+ grammar generator + TLC enumeration; differential comparison of the real parser's AST", design="DESIGN.md section 5 C10"),
  "C16": dict(
    level="model_checking",
-   text="GluonSeqSet.tla defines message-set resolution; TLC enumerates every (view size, mode, set) case of the bounded domain, checks the design-level laws of the function (InsideView, BeyondIsBad, UidNeverBad, RangeOrderIrrelevant, CommaIsUnion), and each case is executed on a real server over the wire (FETCH, SEARCH, STORE, COPY, MOVE, UID EXPUNGE) with the effect compared",
+   text="GluonSeqSet.tla defines message-set resolution; TLC enumerates every (view size, mode, set) case of the bounded domain, checks the design-level laws of the function (InsideView, BeyondIsBad, UidNeverBad, RangeOrderIrrelevant, CommaIsUnion), and each case is executed on a real server over the wire (FETCH, SEARCH, STORE - also with an empty flag list -, COPY, MOVE, UID EXPUNGE) with the effect compared",
    note="bounded: views of 0..4 messages with UID gaps, sets of <=2 ranges over {small numbers, *, six huge numerals}; huge numerals are symbolic in the spec; the server runs in a child process so a crash is an observation",
    technique="TLA+ spec + TLC exhaustive enumeration; replay of every case on the real server over the wire",
    design="DESIGN.md section 5 C16"),
